@@ -65,7 +65,10 @@ def gen_string(r: random.Random, allow: dict, feats: set) -> str:
 	if x < 0.8:
 		feats.add('str:raw')
 		q = r.choice('\'"')
-		return 'r' + q + ''.join(r.choice('ab\\d+ .') for _ in range(r.randint(0, 5))).rstrip('\\') + q
+		# in a raw string a backslash still keeps the following quote from ending the token (r'a\'b' is one token)
+		other = '"' if q == "'" else "'"
+		parts = ''.join(r.choice(['a', 'b', '\\d', '+', ' ', '.', '\\' + q, '\\' + q, other, '\\\\']) for _ in range(r.randint(0, 5)))
+		return 'r' + q + parts + q
 	if x < 0.93:
 		feats.add('str:triple-double')
 		inner = body(r.randint(0, 8), '"').replace('"""', '')
